@@ -8,7 +8,7 @@ checked against bit-level read/write sets computed from the IR alone.
 import itertools
 import sys
 
-from pymtl3 import Component, update, update_once, U, M, WR, Wire, OutPort, InPort, Bits4, blocking, non_blocking, method_port
+from pymtl3 import Component, update, update_once, U, M, WR, RD, bitstruct, Wire, OutPort, InPort, Bits4, blocking, non_blocking, method_port
 
 from vt import ir, irgen, irref
 from vt.acc import Acc, MachineryError
@@ -459,44 +459,139 @@ class FuncMethodCall(Component):
       s.log.append("up_rd"); s.got = s.r.rd()
 
 
-class _WProd(Component):
-  def construct(s, log):
-    s.in_ = InPort(Bits4)
-    s.out = OutPort(Bits4)
+@bitstruct
+class _WSt:
+  x: Bits4
+  y: Bits4
 
-    @update
-    def up_prod():
-      log.append("up_prod"); s.out @= s.in_ + 1
+
+class _WProd(Component):
+  def construct(s, log, variant="whole"):
+    s.in_ = InPort(Bits4)
+    s.out = OutPort(_WSt if variant == "field" else Bits4)
+
+    if variant == "field":
+      @update
+      def up_prod():
+        log.append("up_prod"); s.out.x @= s.in_ + 1; s.out.y @= 0
+    else:
+      @update
+      def up_prod():
+        log.append("up_prod"); s.out @= s.in_ + 1
+
+    if variant == "rdnet":
+      s.add_constraints(RD(s.out) < U(up_prod))        # whoever reads the port (through the connection) runs BEFORE it is written
 
 
 class _WCons(Component):
-  def construct(s, log):
-    s.in_ = InPort(Bits4)
+  def construct(s, log, variant="whole"):
+    s.in_ = InPort(_WSt if variant == "field" else Bits4)
     s.seen = OutPort(Bits4)
 
-    @update
-    def up_sample():
-      log.append("up_sample"); s.seen @= s.in_
-
-    s.add_constraints(U(up_sample) < WR(s.in_))        # sample the port BEFORE it is written in this evaluation
+    if variant == "field":
+      @update
+      def up_sample():
+        log.append("up_sample"); s.seen @= s.in_.x
+      s.add_constraints(U(up_sample) < WR(s.in_.x))    # ... a FIELD of the port that is connected as a whole
+    else:
+      @update
+      def up_sample():
+        log.append("up_sample"); s.seen @= s.in_
+      if variant == "whole":
+        s.add_constraints(U(up_sample) < WR(s.in_))      # sample the port BEFORE it is written in this evaluation
 
 
 class WrPortThroughNet(Component):
   """an explicit inversion U(blk) < WR(port) on a port that is driven through a connection: the value reaches the port when the
   block that writes the other end of the net runs, so that block has to come after blk"""
-  def construct(s):
+  def construct(s, variant="whole"):
     s.log = []
     s.in_ = InPort(Bits4)
     s.seen = OutPort(Bits4)
-    s.p = _WProd(s.log)
-    s.c = _WCons(s.log)
+    s.p = _WProd(s.log, variant)
+    s.c = _WCons(s.log, variant)
     s.p.in_ //= s.in_
     s.c.in_ //= s.p.out
     s.seen //= s.c.seen
 
 
+class _EqQ(Component):
+  def construct(s):
+    s.v = None
+    s.add_constraints(M(s.enq) < M(s.deq))
+  @method_port
+  def enq(s, x): s.v = x
+  @method_port
+  def deq(s):
+    x = s.v
+    s.v = None
+    return x
+
+
+class _EqIn(Component):
+  def construct(s):
+    from pymtl3 import CallerPort
+    s.send = CallerPort()
+    s.add_constraints(M(s.recv) == M(s.send))
+  @method_port
+  def recv(s, x): s.send(x)
+
+
+class _EqOut(Component):
+  def construct(s):
+    from pymtl3 import CallerPort
+    s.src = CallerPort()
+    s.add_constraints(M(s.get) == M(s.src))
+  @method_port
+  def get(s): return s.src()
+
+
+def _mk_equiv(pin, pout):
+  """recv == enq < deq == get: a method ordering whose ends are reached through M(x) == M(y) pass-throughs on the producer side, the
+  consumer side or both (one class per variant: block sources are cached per class and block name)"""
+  class EquivChain(Component):
+    def construct(s):
+      s.log = []
+      s.q = _EqQ()
+      s.got = None
+      if pin:
+        s.pi = _EqIn(); s.pi.send //= s.q.enq
+      if pout:
+        s.po = _EqOut(); s.po.src //= s.q.deq
+
+      if pout:
+        @update_once
+        def up_cons():
+          s.log.append("up_cons"); s.got = s.po.get()
+      else:
+        @update_once
+        def up_cons():
+          s.log.append("up_cons"); s.got = s.q.deq()
+
+      if pin:
+        @update_once
+        def up_prod():
+          s.log.append("up_prod"); s.pi.recv(5)
+      else:
+        @update_once
+        def up_prod():
+          s.log.append("up_prod"); s.q.enq(5)
+  return EquivChain
+
+
+_EQUIV = {}
+
+
+def EquivChain(pin, pout):
+  if (pin, pout) not in _EQUIV: _EQUIV[(pin, pout)] = _mk_equiv(pin, pout)
+  return _EQUIV[(pin, pout)]()
+
+
 def handwritten_cases():
-  yield ("wrport", ())
+  for pin, pout in ((1, 0), (0, 1), (1, 1)):
+    yield ("equiv", (pin, pout))
+  for variant in ("whole", "field", "rdnet"):
+    yield ("wrport", (variant,))
   for n in (1, 2):
     yield ("once", (n,))
   for direct in (1, 0):
@@ -516,7 +611,7 @@ def build_hw(kind, args, group, chooser=None):
   from pymtl3.passes.mamba.PassGroups import UnrollSim, HeuTopoUnrollSim, Mamba2020
   from vt import seams
   import pymtl3.stdlib.queues.cl_queues as clq
-  top = WrPortThroughNet() if kind == "wrport" else FLDesign(*args) if kind == "fl" else (OnceNoMethods(*args) if kind == "once" else (FuncMethodCall(*args) if kind == "funcm" else CLCallers(getattr(clq, args[0]), args[1])))
+  top = EquivChain(*args) if kind == "equiv" else WrPortThroughNet(*args) if kind == "wrport" else FLDesign(*args) if kind == "fl" else (OnceNoMethods(*args) if kind == "once" else (FuncMethodCall(*args) if kind == "funcm" else CLCallers(getattr(clq, args[0]), args[1])))
   top.elaborate()
   with seams.shuffle_seam(chooser):
     if group == "default": top.apply(DefaultPassGroup())
@@ -534,6 +629,8 @@ def hw_required(kind, args):
     return [("up_wr", "up_rd")], 2
   if kind == "wrport":
     return [("up_sample", "up_prod")], 2
+  if kind == "equiv":
+    return [("up_prod", "up_cons")], 2
   if kind == "once":
     return [("up_once_a", "up_once_b" if args[0] == 2 else "up_plain")], 2
   q = args[0]
